@@ -99,41 +99,56 @@ func checkC06(r *core.Run) {
 	{
 		info := doFence.Pkg.TypesInfo
 		seen := map[string]bool{}
-		ast.Inspect(doFence.Decl.Body, func(n ast.Node) bool {
-			cc, ok := n.(*ast.CaseClause)
-			if !ok {
-				return true
-			}
-			for _, e := range cc.List {
-				c := core.ConstObj(info, e)
-				if c == nil {
-					continue
+		// the phase -> handler mapping: a switch over the phase, or guards plus a lookup in a table of handler methods
+		tab, _ := dispatchTable(w, doFence, func(e ast.Expr) string {
+			if c := core.ConstObj(info, e); c != nil {
+				if nt, ok := c.Type().(*types.Named); ok && nt.Obj().Name() == "FencePhase" {
+					return c.Name()
 				}
-				seen[c.Name()] = true
-				r.Sites++
-				var called []string
-				retErr := false
-				ast.Inspect(cc, func(m ast.Node) bool {
-					switch x := m.(type) {
-					case *ast.CallExpr:
-						if f := core.Callee(info, x); f != nil && core.RecvNamed(f) == hd {
+			}
+			return ""
+		})
+		var names []string
+		for k := range tab {
+			names = append(names, k)
+		}
+		sort.Strings(names)
+		for _, name := range names {
+			node := tab[name]
+			seen[name] = true
+			r.Sites++
+			var called []string
+			retErr := false
+			switch x := node.(type) {
+			case *ast.SelectorExpr:
+				// a table entry naming the handler method (method value or method expression)
+				if f, ok := info.Uses[x.Sel].(*types.Func); ok {
+					called = append(called, f.Name())
+				}
+			case *ast.Ident:
+				if f, ok := info.Uses[x].(*types.Func); ok {
+					called = append(called, f.Name())
+				}
+			default:
+				ast.Inspect(node, func(m ast.Node) bool {
+					if c, ok := m.(*ast.CallExpr); ok {
+						if f := core.Callee(info, c); f != nil && core.RecvNamed(f) == hd {
 							called = append(called, f.Name())
 						}
-						if f := core.Callee(info, x); f != nil && f.Pkg() != nil && f.Pkg().Path() == "fmt" && f.Name() == "Errorf" {
+						if f := core.Callee(info, c); f != nil && f.Pkg() != nil && f.Pkg().Path() == "fmt" && f.Name() == "Errorf" {
 							retErr = true
 						}
 					}
 					return true
 				})
-				key := "pkg/rm/tcc/fence.DoFence case " + c.Name()
-				if want, ok := phaseHandler[c.Name()]; ok {
-					r.Check(len(called) == 1 && called[0] == want, "C06.phase", key, w.Pos(e.Pos()), "dispatches to "+want, "phase "+c.Name()+" must be handled by "+want+", but the case calls ["+strings.Join(called, ",")+"]")
-				} else {
-					r.Check(len(called) == 0 && retErr, "C06.phase", key, w.Pos(e.Pos()), "no handler; error", "phase "+c.Name()+" must be rejected with an error")
-				}
 			}
-			return true
-		})
+			key := "pkg/rm/tcc/fence.DoFence case " + name
+			if want, ok := phaseHandler[name]; ok {
+				r.Check(len(called) == 1 && called[0] == want, "C06.phase", key, w.Pos(node.Pos()), "dispatches to "+want, "phase "+name+" must be handled by "+want+", but the case calls ["+strings.Join(called, ",")+"]")
+			} else {
+				r.Check(len(called) == 0 && retErr, "C06.phase", key, w.Pos(node.Pos()), "no handler; error", "phase "+name+" must be rejected with an error")
+			}
+		}
 		for _, c := range enumConsts(w, "pkg/rm/tcc/fence/enum", "FencePhase") {
 			if !seen[c.Name()] {
 				r.Bad("C06.phase", "pkg/rm/tcc/fence.DoFence case "+c.Name(), w.Pos(doFence.Decl.Pos()), "no case for fence phase "+c.Name())
@@ -549,7 +564,9 @@ func c06BothTx(r *core.Run) {
 				continue
 			}
 			r.Sites++
-			role := exitRole(ex, func(t string) bool { return hasPrefixAny(t, "ok:bizbegin", "fail:bizbegin", "ok:fencebegin", "fail:fencebegin") })
+			role := exitRole(ex, func(t string) bool {
+				return hasPrefixAny(t, "ok:bizbegin", "fail:bizbegin", "ok:fencebegin", "fail:fencebegin")
+			})
 			r.Check(!ex.St.Maybe("flagup"), "C06.bothtx", core.ShortKey(fn.Obj)+" "+role+" leaves the fence-begun flag down", w.Pos(ex.Pos),
 				"the flag is raised only once both transactions are open and the fence step succeeded", "this failing return leaves the 'fence transaction begun' flag raised on the context: database/sql retries a begin that failed with driver.ErrBadConn on the same context, the retried BeginTx then takes the nested-begin branch and hands out the business transaction without opening a fence transaction or consulting the fence table — the phase runs unfenced (a late try after an empty rollback is admitted, a duplicate commit is applied again)")
 		}
